@@ -60,6 +60,12 @@ PROPS = {
         "assumptions": ["ECDSA signature verification of the accumulator is an oracle"],
         "partial": [],
     },
+    "C11": {
+        "suite": "C11", "ref_sample": 0, "trusted": CORE_TRUSTED,
+        "assumptions": ["extraction of (u,e) with u^e = nu from an accepted proof is the two-transcript argument of Camenisch-Lysyanskaya 2002 (cited)"],
+        "partial": ["completeness for honest proofs holds only when exactly one hidden response lies below 2^580 (known finding C11:ambiguous-revocation-index)",
+                    "soundness extraction cited, not mechanised"],
+    },
     "C12": {
         "suite": "C12", "ref_sample": 2, "trusted": CORE_TRUSTED,
         "assumptions": ["a verified range proof establishes the sum-of-squares relation by the two-transcript extractor + CL03 (cited); the theorems take the relation as hypothesis"],
